@@ -20,6 +20,9 @@ TRUSTED = [
     "Symbol identity = (name, assumptions0); sp.lambdify for the numeric clause",
     "symbol encoding 'name|assumptions' (first '|' separates): new names must not contain '|' (wf_map)",
     "domain restriction in_domain: no Indexed left in expression / kinematic variables (checked per case by the model's flag)",
+    "object identity / aliasing cannot be expressed in the purely functional Rename.v: that the renamed model shares no mutable "
+    "container with the original and that writes to parameter_defaults (by symbol, name, index) do not leak either way is "
+    "checked by the harnesses only (bridge/lib_C17.independence), for non-empty maps (the empty map returns self by design)",
 ]
 
 
